@@ -156,4 +156,28 @@ def applyPaint (scr : Screen) (calls : List (Win × Op)) : Screen :=
 def render (s : Surface) (win : Win) (scr : Screen) : Except Panic Screen :=
   if s.divZero then .error .divideByZero else .ok (applyPaint scr (s.paint win))
 
+/-! ### the entry point: App.Run -/
+
+/-- The window `win.New(0, 0, int(s.Size.Width), int(s.Size.Height))` App.Run hands to `render` for
+the root surface of a frame (`win` = the whole screen). -/
+def rootWin (s : Surface) (win : Win) : Win := win.new 0 0 (Int.ofNat s.w.toNat) (Int.ofNat s.h.toNat)
+
+/-- `s.render(win.New(0,0,W,H), focused)`: the root clips its children to its own rectangle like
+every other surface (what `vxfw.VerifC14RenderRoot` evaluates). -/
+def renderClipped (s : Surface) (win : Win) (scr : Screen) : Except Panic Screen := render s (rootWin s win) scr
+
+/-- The render call of App.Run, `clips` = whether its window argument is `win.New(0,0,W,H)` (true)
+or the bare screen window (false; the code before the fix of F114). -/
+def renderRootWith (clips : Bool) (s : Surface) (win : Win) (scr : Screen) : Except Panic Screen :=
+  if clips then renderClipped s win scr else render s win scr
+
+/-- The render call of App.Run in the current source: which window it passes is read from the
+source on every run (`Gen.SurfaceFacts.runRenderClipsRoot`). -/
+def renderRoot (s : Surface) (win : Win) (scr : Screen) : Except Panic Screen :=
+  renderRootWith Gen.SurfaceFacts.runRenderClipsRoot s win scr
+
+/-- One frame of App.Run on the screen: `win := a.vx.Window(); win.Clear(); s.render(…)`. -/
+def runFrame (s : Surface) (scr : Screen) : Except Panic Screen :=
+  renderRoot s (Win.ofScreen scr) (clear (Win.ofScreen scr) scr)
+
 end VaxisModel.Model.Surface
